@@ -911,20 +911,38 @@ func (g *gen) node(mi int, m *Mod, sc *scope, where string, depth int) *Node {
 		}
 		csc := sc.child()
 		csc.underOp = true
+		// typedefs local to the operation, and to its input / output
+		localTypedef := func(holder *Node, into *scope, chance int) {
+			if t.Chance(1, chance) {
+				td := &Typedef{Name: g.id("t"), Type: g.typ(sc.v, sc, 0)}
+				holder.Typedefs = append(holder.Typedefs, td)
+				into.localTypedefs = append(into.localTypedefs, Ref{Mod: m.Name, Name: td.Name})
+			}
+		}
+		localTypedef(n, csc, 5)
 		if t.Chance(2, 3) {
 			in := &Node{Kind: KInput}
-			in.Kids = g.body(mi, m, csc, KInput, depth-1, t.Range(0, 2))
+			isc := csc.child()
+			localTypedef(in, isc, 6)
+			in.Kids = g.body(mi, m, isc, KInput, depth-1, t.Range(0, 2))
 			n.Kids = append(n.Kids, in)
 		}
 		if t.Chance(1, 2) {
 			out := &Node{Kind: KOutput}
-			out.Kids = g.body(mi, m, csc, KOutput, depth-1, t.Range(0, 2))
+			osc := csc.child()
+			localTypedef(out, osc, 6)
+			out.Kids = g.body(mi, m, osc, KOutput, depth-1, t.Range(0, 2))
 			n.Kids = append(n.Kids, out)
 		}
 	case KNotification:
 		n.Name = g.id("nt")
 		csc := sc.child()
 		csc.underOp = true
+		if t.Chance(1, 5) {
+			td := &Typedef{Name: g.id("t"), Type: g.typ(sc.v, sc, 0)}
+			n.Typedefs = append(n.Typedefs, td)
+			csc.localTypedefs = append(csc.localTypedefs, Ref{Mod: m.Name, Name: td.Name})
+		}
 		n.Kids = g.body(mi, m, csc, KNotification, depth-1, t.Range(0, 3))
 	}
 	return n
